@@ -519,7 +519,46 @@ def c11h(tree, ob):
     # 4. every parked bundle is handed over: the loop that sends them does not edit the list it walks
     from .common import iter_mutation
     iter_mutation(tree, ob, [CLA])
-    ob.require(n >= 6, 'send_bundle_data / parking sites in bp/cla.py: {}'.format(n))
+    # 5. a closed connection leaves the node map under the key it was entered with: the key (<conn>.nodeid) is not reset
+    #    on a way that leads to the clean-up.  A stale entry answers "there is a session" for a peer whose session ended:
+    #    what is sent then (the later fragments of a bundle) goes to a dead proxy instead of waiting for the next session
+    resetters = set()
+    if tree.has_class(CLA, 'TcpclConnection'):
+        for (item, st, kind, val) in stores_to_self_attr(tree.klass(CLA, 'TcpclConnection'), 'nodeid'):
+            if item.name != '__init__':
+                resetters.add(item.name)
+    for (r, qual, func) in funcs:
+        dels = []
+        for sub in walk_local(func):
+            if isinstance(sub, ast.Delete):
+                for t in sub.targets:
+                    got = pm('self._cl_conn_nodeid[$c.nodeid]', t)
+                    if got is not None:
+                        dels.append((sub, src(got['c'])))
+            elif isinstance(sub, ast.Call):
+                got = pm('self._cl_conn_nodeid.pop($c.nodeid)', sub) or pm('self._cl_conn_nodeid.pop($c.nodeid, $d)', sub)
+                if got is not None:
+                    dels.append((sub, src(got['c'])))
+        if not dels:
+            continue
+        fv = FuncView(tree, CLA, qual)
+        for (d, conn) in dels:
+            n += 1
+            resets = []
+            for sub in walk_local(func):
+                if isinstance(sub, (ast.Assign, ast.AugAssign)):
+                    for t in (sub.targets if isinstance(sub, ast.Assign) else [sub.target]):
+                        if src(t) == conn + '.nodeid':
+                            resets.append(sub)
+                elif isinstance(sub, ast.Call) and isinstance(sub.func, ast.Attribute) and src(sub.func.value) == conn and sub.func.attr in resetters:
+                    resets.append(sub)
+            early = [x for x in resets if fv.node(d) in fv.cfg.reachable([fv.node(x)]) and fv.node(x) is not fv.node(d)]
+            if early:
+                ob.violate(CLA, qual, src(early[0])[:70], 'the node ID of the connection is reset before the node map is cleaned under it: the entry of the closed connection stays, the next bundle (or the '
+                           'next fragment of this one) for that peer is handed to the dead proxy instead of waiting for a new session, and is lost', early[0], sure=True)
+            else:
+                ob.site(CLA, d, qual + ': the node map is cleaned under the key the connection was entered with')
+    ob.require(n >= 7, 'send_bundle_data / parking / clean-up sites in bp/cla.py: {}'.format(n))
 
 
 def adaptor_rx_fidelity(tree, ob):
